@@ -152,7 +152,7 @@ func jsonForStruct(st *an.Struct) string {
 
 		fieldTypeID := jsonID(field.Type)
 		fieldName := field.JSONName()
-		dartFieldName := lowerFirst(fieldName) // convert to dart convention
+		dartFieldName := dartIdentifier(fieldName) // convert to dart convention
 
 		if field.IsOpaqueFor("dart") {
 			// use identity
